@@ -39,13 +39,17 @@ def base_cases(draw, ncomp=1, min_n=3, max_n=30):
     n = len(cloud["cells"])
     kind = draw(st.sampled_from(["unit", "int", "big", "small", "mixed"]))
     data = [draw(gen.data_values(n, kind)) for _ in range(ncomp)]
-    wmode = draw(st.sampled_from(["none", "given", "given"]))
-    weights = None if wmode == "none" else [draw(gen.weights_values(n)) for _ in range(ncomp)]
+    wmode = draw(st.sampled_from(["none", "given", "given", "uniform"]))
+    if wmode == "uniform":
+        # all weights equal to a constant other than 1 (they still rescale the damping)
+        weights = [[draw(st.sampled_from([0.01, 0.25, 3.0, 100.0]))] * n for _ in range(ncomp)]
+    else:
+        weights = None if wmode == "none" else [draw(gen.weights_values(n)) for _ in range(ncomp)]
     damping = draw(st.one_of(st.none(), gen.log_uniform(-8, 2)))
     m = draw(st.integers(1, 8))
     query = [[draw(gen.finite(-1, cloud["side"] + 1)), draw(gen.finite(-1, cloud["side"] + 1))] for _ in range(m)]
     return dict(cloud=cloud, data=data, weights=weights, damping=damping, query=query, shape=draw(st.sampled_from(blocks.shape_options(n))),
-                orders=draw(vbuild.orders_strategy()))
+                orders=draw(vbuild.orders_strategy()), int_dtype=(kind == "int" and draw(st.booleans())), force_container=draw(st.sampled_from(vbuild.CONTAINERS)))
 
 
 def arrays(case):
@@ -53,7 +57,7 @@ def arrays(case):
     shape = case["shape"]
     lay = vbuild.Lay(case.get("orders"))
     e, n = lay(es, shape), lay(ns, shape)
-    data = [lay(d, shape) for d in case["data"]]
+    data = [lay(d, shape, "int64" if case.get("int_dtype") else "float64") for d in case["data"]]
     weights = None if case["weights"] is None else [lay(w, shape) for w in case["weights"]]
     qe, qn = gen.cloud_query(case["cloud"], case["query"])
     return e, n, data, weights, np.array(qe), np.array(qn)
@@ -110,7 +114,7 @@ def judge(ctx, what, jac, jac_q, data, weights, damping, params, pred_q, kernel_
                             % (what, float(pred_q[k]), float(exp_q[k]), float(err[k]), float(tol[k]), cond, damping))
     ctx.label("damped" if damping is not None else "undamped", "weights" if w is not None else "noweights",
               "overdetermined" if jac.shape[0] > jac.shape[1] else "square_or_under")
-    nonuniform = w is None or len(set(np.round(w, 12).tolist())) > 1
+    nonuniform = w is None or len(set(np.round(w, 12).tolist())) > 1 or (damping is not None and float(w[0]) != 1.0)
     return (jac.shape[0] > jac.shape[1] or damping is not None) and nonuniform
 
 
@@ -155,7 +159,7 @@ def check_spline(case, ctx):
         sp = quiet(vd.Spline, damping=case["damping"])
     else:
         fe, fn = (np.array(v) for v in gen.cloud_query(case["cloud"], case["force_fracs"]))
-        sp = quiet(vd.Spline, damping=case["damping"], force_coords=(fe, fn))
+        sp = quiet(vd.Spline, damping=case["damping"], force_coords=(vbuild.present(fe, case.get("force_container")), vbuild.present(fn, case.get("force_container"))))
     quiet(sp.fit, (e, n), data[0], None if weights is None else weights[0])
     jac = kernels.spline_jacobian(e, n, fe, fn)
     jq = kernels.spline_jacobian(qe, qn, fe, fn)
